@@ -209,17 +209,34 @@ def reconcileReferencedTypes (U : UnicodeOps) (pick : List ImportedType → Opti
 def isEmpty (d : ParsedData) : Bool :=
   d.structs.isEmpty && d.enums.isEmpty && d.aliases.isEmpty && d.consts.isEmpty && d.errors.isEmpty
 
+/-- the visitor's result before `parsed_data()` post-processes it -/
+def visitFile (E : Ext) (ctx : ParseContext) (crateName fileName filePath : Str) (f : File) :
+    Outcome ParsedData :=
+  let d0 : ParsedData := { crateName, fileName, multiFile := ctx.multiFile }
+  if (TargetOs.accept f.attrs ctx.targetOs).getD true then
+    visitItems E ctx filePath (addPaths E ctx d0 (attrPaths f.attrs)) f.items
+  else pure d0
+
 /-- `parser::parse` on an already tokenised file (`syn::parse_file` succeeded) -/
 def parseFile (E : Ext) (ctx : ParseContext) (pick : List ImportedType → Option ImportedType)
     (crateName fileName filePath : Str) (f : File) : Outcome (Option ParsedData) :=
   if !f.marker then .ok none else
-  let d0 : ParsedData := { crateName, fileName, multiFile := ctx.multiFile }
-  if (TargetOs.accept f.attrs ctx.targetOs).getD true then
-    (visitItems E ctx filePath (addPaths E ctx d0 (attrPaths f.attrs)) f.items).bind fun d =>
-      if isEmpty d then pure none
-      else if d.multiFile then pure (some (reconcileReferencedTypes E.U pick d))
-      else pure (some d)
-  else pure none
+  (visitFile E ctx crateName fileName filePath f).bind fun d =>
+    if isEmpty d then pure none
+    else if d.multiFile then pure (some (reconcileReferencedTypes E.U pick d))
+    else pure (some d)
+
+/-- type names for which `HashSet::find` in `reconcile_referenced_types` has more than one
+candidate (the same name imported from two crates): the result then depends on the hash order -/
+def ambiguousImports (d : ParsedData) : List Str :=
+  ((d.importTypes.filter fun i => i.typeName != s%"*").filterMap fun i =>
+    if d.importTypes.any fun j => j.typeName == i.typeName && j.baseCrate != i.baseCrate
+    then some i.typeName else none).eraseDups ++
+  -- a glob import only *extends* an entry another import of the same crate created
+  -- (`and_modify` without `or_insert`), so the outcome depends on which is iterated first
+  ((d.importTypes.filter fun i => i.typeName == s%"*").filterMap fun g =>
+    if d.importTypes.any fun j => j.typeName != s%"*" && j.baseCrate == g.baseCrate
+    then some (g.baseCrate ++ s%"::*") else none)
 
 end Visitor
 end TsV
